@@ -161,7 +161,7 @@ func (k *ck) ruleSignature(cs *Case, rule string) string {
 	}
 	rr := validate.Decide(cs.Env.Model, cs.Doc)[rule]
 	sig := ""
-	k.c.Guard("panic:shrink", cs.Text, func() {
+	k.c.Guard("panic", guardDetail("shrink", cs.Text), func() {
 		vr := graphql.ValidateDocument(&cs.Env.Schema, astDoc, []graphql.ValidationRuleFn{RuleFns[rule]})
 		reports := len(vr.Errors) > 0
 		switch {
